@@ -358,7 +358,36 @@ def rule_kmax_everywhere(ctx: Ctx, rep: Report) -> None:
     rep.floor(rule, 2)
 
 
+def rule_keys_in_address_order(ctx: Ctx, rep: Report) -> None:
+    """C16.keys_in_address_order: `output_keys` promises one key per address, in
+    the order of the addresses, and derives them group by group (a scan key's
+    outputs share a secret and count k). What it returns is therefore rebuilt
+    address by address: a sequence walked once per element of a list that the
+    loop over the `addresses` parameter appended to -- never the group-ordered
+    list itself, which pairs Y's amount with X' for [X, Y, X']."""
+    rule = "C16.keys_in_address_order"
+    fi = ctx.func("btclib.silent_payments.output_keys")
+    addr = fi.params()[2]
+    per_address = set()
+    for lp in own_nodes(fi.node):
+        if isinstance(lp, ast.For) and isinstance(lp.iter, ast.Name) and lp.iter.id == addr:
+            for c in ast.walk(lp):
+                if isinstance(c, ast.Call) and isinstance(c.func, ast.Attribute) and c.func.attr == "append" and isinstance(c.func.value, ast.Name) and isinstance(parent(parent(c)), ast.For):
+                    per_address.add(c.func.value.id)
+    rets = [r for r in own_nodes(fi.node) if isinstance(r, ast.Return) and r.value is not None and not (isinstance(r.value, ast.List) and not r.value.elts)]
+    n = 0
+    for r in rets:
+        n += 1
+        v = r.value
+        ok = isinstance(v, ast.ListComp) and isinstance(v.generators[0].iter, ast.Name) and v.generators[0].iter.id in per_address
+        ok = ok or (isinstance(v, ast.ListComp) and isinstance(v.generators[0].iter, ast.Name) and v.generators[0].iter.id == addr)
+        rep.ob(rule, f"output_keys:return@{n}", ok, fi.where(r), "answered address by address" if ok else
+               f"`{norm(r)[:70]}` answers the keys in the order they were derived (group by group), not in the order of the addresses")
+    rep.floor(rule, 1)
+
+
 RULES = [
+    ("C16.keys_in_address_order", rule_keys_in_address_order),
     ("C16.kmax_everywhere", rule_kmax_everywhere),
     ("C16.kmax_per_scan_key", rule_kmax_per_scan_key),
     ("C16.accumulators", rule_accumulators),
